@@ -122,6 +122,19 @@ CLAIMED['C03'] = {
           '(contracts/frontend.py: escape_site) so that any other escape is still reported. Termination is not proved.',
   'design': '7.3 (C03)',
 }
+CLAIMED['C20'] = {
+  'text': 'Whitelist closure, mostly bounded: proved (z3) is only ApiNamespace.add_route, with which the filter rebuilds the route tables '
+          '(by-name tables = route list). The traversal itself (_find_dependencies_recursive: recursion over mutable sets / defaultdicts with '
+          'doc-reference regexes) is NOT proved: the postcondition of specs_to_ir with a whitelist, taken from the statement, is checked on a '
+          'two-namespace spec (aliases and alias chains, parents, enumerated subtypes, tag defaults, lists / maps / nullables, doc references '
+          'to types, fields and routes, cross-namespace references) x generated whitelists (subsets of routes incl. versions and *, subsets of '
+          'data types) against a reference closure computed independently on the unfiltered description: every closure member retained, '
+          'nothing outside it retained, no retained field / parent / subtype / alias target / route signature refers to a removed type, by-name '
+          'tables agree, and (every fourth whitelist) the python_types output of the filtered description imports -- a BOUNDED stand-in.',
+  'note': 'Found and fixed: aliases retained while their targets were removed (fix commit recorded as F-C20-1). Not covered: specs beyond the '
+          'one scenario; other backends than python_types for the load check.',
+  'design': '7.3 (C20)',
+}
 NOT_YET = {
  'C01': 'not decided by this technique in this revision: acceptance <=> language rules is a property of the whole frontend (ply lexer / LALR tables, '
         'the parser actions and the ten resolution passes of ir_generator.py, ~2000 lines over mutable AST/IR graphs), which is outside the Python '
@@ -137,8 +150,6 @@ NOT_YET = {
  'C12': 'not applicable to this technique: determinism across processes, hash seeds and output directories is a relation between runs; a function '
         'contract can state order-insensitivity of one function over a set, which was planned for the anchor list but needs a model of set iteration '
         'order that the engine does not have',
- 'C20': 'not decided: the closure is computed by a recursive traversal over mutable sets / defaultdicts with doc-reference regexes '
-        '(_find_dependencies_recursive), outside the VC generator subset; no bounded stand-in was built either',
 }
 NA = {
  'C09': 'property of emitted Python source when imported; no contract on an emitting function can express the semantics of its output text',
